@@ -1,7 +1,10 @@
 """An unannotated class attribute of a dataclass is emitted as `name = ...`, i.e. with type EllipsisType.
 
 Exit status 1 = defect present, 0 = absent, 2 = inconclusive (preconditions of the input failed).
-Mechanism keys: stubtest:parse-only:dataclass.class-variable:variable differs from runtime type Literal[...], stubtest:semantic:dataclass.class-variable:variable differs from runtime type Literal[...]"""
+Mechanism keys:
+  stubtest:parse-only:dataclass.class-variable:variable differs from runtime type Literal[...]
+  stubtest:semantic:dataclass.class-variable:variable differs from runtime type Literal[...]
+"""
 import os
 import sys
 
